@@ -188,11 +188,32 @@ def run_case(ctx, n):
         cur = mito.allowed_capabilities
         return cur is None or required <= set(cur)
 
+    def spell(name):
+        """how the request spells the tool: mostly exactly; sometimes a case / whitespace variant that is NOT a registered
+        name (then no registered tool is addressed at all and, in particular, no forbidden tool may run)"""
+        if rng.random() < 0.75:
+            return name
+        v = rng.choice([name.upper(), name.lower(), name.title(), name.swapcase(), name + " ", " " + name, name + "_", name[:-1]])
+        return v
+
     def request(entry, name):
         """returns nothing; checks obligations."""
         key, required, style = tools_model[name]
         ok = permitted(name)
         before = runs.get(key, 0)
+        all_before = dict(runs)
+        target = name
+        name = spell(name)
+        addressed = True
+        if name != target:
+            ctx.count("misspelled_requests")
+            if name in tools_model:        # the variant happens to be another registered tool: that one is addressed
+                target = name
+                key, required, style = tools_model[name]
+                ok = permitted(name)
+                before = runs.get(key, 0)
+            else:
+                addressed = False          # no registered tool is addressed; only the global rule below applies
         _AUDIT["hits"].clear()
         _AUDIT["armed"] = True
         reported_success = None
@@ -258,11 +279,20 @@ def run_case(ctx, n):
         finally:
             _AUDIT["armed"] = False
         after = runs.get(key, 0)
+        # whatever was requested and however it was spelled: no forbidden tool may have run
+        for t, (k2, req2, st2) in tools_model.items():
+            if not permitted(t) and runs.get(k2, 0) != all_before.get(k2, 0) and (k2 != key or not addressed):
+                ctx.violation("forbidden-tool-ran:" + entry,
+                              "request spelled %r via %s ran tool %r (requires %s) with allowed=%s" % (
+                                  name, entry, t, sorted(map(str, req2)), fmt(mito.allowed_capabilities)),
+                              {"history": list(history), "spelled": name})
         ctx.count("entry:" + entry)
-        rec = {"entry": entry, "tool": name, "required": sorted(map(str, required)), "style": style,
+        rec = {"entry": entry, "tool": target, "spelled": name, "required": sorted(map(str, required)), "style": style,
                "allowed": fmt(mito.allowed_capabilities), "permitted_by_model": ok, "ran": after - before,
                "reported_success": reported_success}
         history.append(rec)
+        if not addressed:
+            return
         if not ok:
             ctx.count("forbidden_requests")
             forbidden_seen.append((entry, len(mito.allowed_capabilities), len(required - set(mito.allowed_capabilities)), style))
